@@ -56,6 +56,11 @@ structure ListShape (cc : CharClass) (cm : Bool) (columns : Nat) (cw : Option In
 
 /-! ### widgets that respect the width they are rendered at -/
 
+/-- the widget is a `TextWidget` -/
+def Wd.isText : Wd → Bool
+  | .text _ _ => true
+  | _ => false
+
 /-- every row of a successful rendering of `it` at width `w` is at most `w` characters long (a
 negative width counts as 0) -/
 def RespectsWidth (cc : CharClass) (it : Wd) (w : Int) : Prop :=
@@ -79,13 +84,13 @@ mutual
     | x :: xs => x.Fits && fitsList xs
 end
 
-/-- the part of `LayoutOK` that is about widths (everything but `label_rows`): it holds for every
-key pattern -/
+/-- `LayoutOK` without the clause `label_rows` ("a label is at most one row high"): the part that is
+about widths. It holds for every key pattern, and it is all the placement proofs use. -/
 structure WidthOK (used : Int) (labels : List (Option NumW)) (grids : List Grid) : Prop where
   used_pos : 0 < used
   len : labels.length = grids.length
   item_fits : ∀ i, (hi : i < grids.length) → ∀ row ∈ grids[i], (row.length : Int) + labelLen labels i ≤ used
   label_fits : ∀ i, i < grids.length → ∀ row ∈ labelBuf labels i, row.length ≤ labelLen labels i
-  label_room : ∀ i, i < grids.length → (labelLen labels i : Int) < used
+  label_room : ∀ i, i < grids.length → (labelLen labels i : Int) < used ∨ labelBuf labels i = []
 
 end Simpleline
